@@ -23,7 +23,7 @@ var floats = []string{"1", "0", "2.5", "100", "1e3", "1.5e-7", "12345678", "0.00
 	"1E40", "2.5E-30", "1.2345678901234567E3", "4503599627370496E0", "1E-300", "1.5E3",
 	"9007199254740993.0", "9.007199254740993e15", "18014398509481986.0", "4503599627370498.5", "9007199254740995.0", "4503599627370497.5",
 	"1.00000000000000011102230246251565404236316680908203125", "9.313225746154785e-10", "2.220446049250313e-16", "1.1805916207174113e+21",
-	"3e-324", "2.4703282292062328e-324", "4.9406564584124654e-324", "1.7976931348623157e308", "1.7976931348623159e308", "+1.5e+3", "-2.5E+0"}
+	"1e308", "-1.5e308", "1.7976931348623157e+308", "9.9e307", "3e-324", "2.4703282292062328e-324", "4.9406564584124654e-324", "1.7976931348623157e308", "1.7976931348623159e308", "+1.5e+3", "-2.5E+0"}
 var seps = []string{" ", " ", " ", "\t", "  ", " \t ", "\u00a0", "\u2003", "\u0085", "\v", "\f"}
 
 func pick(t *rapid.T, xs []string, label string) string { return rapid.SampledFrom(xs).Draw(t, label) }
@@ -168,6 +168,16 @@ func Text(t *rapid.T, maxLines int, allowCRCR bool) string {
 				sb.WriteString("BenchmarkM 1 " + strconv.Itoa(i) + " unit" + strconv.Itoa(i) + "\n")
 			}
 		}
+	}
+	if vcase.OneIn(t, 40, "longlines") {
+		// lines of 4 to 60 KiB: still below the 64 KiB limit of the format's readers
+		ln := rapid.SampledFrom([]int{4090, 4097, 5000, 9000, 33000, 60000}).Draw(t, "longlen")
+		sb.WriteString("note: " + strings.Repeat("v", ln) + "\n")
+		sb.WriteString("BenchmarkLongLine 1")
+		for i := 0; i*14 < ln; i++ {
+			sb.WriteString(" " + strconv.Itoa(i%97) + " metric" + strconv.Itoa(i))
+		}
+		sb.WriteString("\n# " + strings.Repeat("x", ln) + "\n")
 	}
 	for i := 0; i < n; i++ {
 		sb.WriteString(Line(t))
